@@ -53,12 +53,13 @@ func addHeaders(r *http.Request, cfg config.Proxy, stripPath string) error {
 	dropManagedConnectionOptions(r.Header, cfg)
 
 	// set configurable ClientIPHeader
-	// X-Real-Ip is set later and X-Forwarded-For is set
-	// by the Go HTTP reverse proxy.
-	if cfg.ClientIPHeader != "" &&
-		cfg.ClientIPHeader != "X-Forwarded-For" &&
-		cfg.ClientIPHeader != "X-Real-Ip" {
-		r.Header.Set(cfg.ClientIPHeader, remoteIP)
+	// X-Forwarded-For is set by the Go HTTP reverse proxy (or below for
+	// websockets) which appends the address. X-Real-Ip is set later but only
+	// when the client did not send one: as the configured client ip header
+	// it must not be left to the client. Header names are case-insensitive,
+	// so the option is compared in its canonical spelling.
+	if h := http.CanonicalHeaderKey(cfg.ClientIPHeader); h != "" && h != "X-Forwarded-For" {
+		r.Header.Set(h, remoteIP)
 	}
 
 	if r.Header.Get("X-Real-Ip") == "" {
